@@ -4,6 +4,7 @@
 
 class DirectSolverGiveCustomLU : public DirectSolver
 {
+    VERIF_FRIEND
 public:
     explicit DirectSolverGiveCustomLU(const PolarGrid& grid, const LevelCache& level_cache,
                                       const DomainGeometry& domain_geometry,
